@@ -15,6 +15,16 @@ CLAIMED = {
              technique="symbolic execution of the real Python code with z3 (symx), bounded exhaustive over failure schedules",
              note="update_positions is replaced by a scripted outcome (its geometry is C05/C07); bounds: see evidence.conditions.*.bounds. " + NOTE_COMMON),
 }
+CLAIMED["C19"] = dict(text="Bounded symbolic model checking of the real complement_dsDNA/_dna_edge_iterator/add_monomer: strand length and every residue "
+                  "name are solver variables (finite selectors), linear and circular; an independent pairing rule is the oracle in both directions "
+                  "(names, ids, edges, labels, involution, rejection of unknown names).",
+             design="DESIGN.md 4/C19", technique="symbolic execution of the real Python code with z3 (symx); selector-only, exhaustive within the bound",
+             note="strand length <= bound, names from the stated alphabet (all 12 table names + unknown names). " + NOTE_COMMON)
+CLAIMED["C12"] = dict(text="Bounded symbolic model checking of the real sequence readers/builders and gen_seq: sequence length, every character / residue name, "
+                  "line breaks, terminators, block counts, macro levels and branching, connect records, termini and labels are solver variables; oracles are "
+                  "independently written IUPAC tables and a closed-form tree/offset computation; gen_seq output is read back by the real JSON reader.",
+             design="DESIGN.md 4/C12", technique="symbolic execution of the real Python code with z3 (symx) with real files in a per-path temp dir; selector-only",
+             note="characters from a stated alphabet (not arbitrary Unicode), sizes as in evidence bounds; statistical residue mixes excluded. " + NOTE_COMMON)
 NOT_YET = {}
 def main():
     props = [json.loads(l) for l in open(os.path.join(ROOT, "properties.jsonl"))]
